@@ -10,6 +10,10 @@ Stateful line protocol for Model/Sym3.lean.
   geo K        -> [geoTotal 0, ..., geoTotal (K-1)]
   par K        -> [parTotal 0, ..., parTotal (K-1)]
   domain i j   -> T/F (inDomain) ; sector i j -> T/F ; sym i j -> 0/120 line flags
+  pinit [[assemNum,[[selfN,selfK,gridN,gridK,ownerN,ownerK,onOwn,[[i,j],...]],...]],...]
+               -> ok      the table below block level (gridN / ownerN = -1: none); the four operations update it
+  sub          -> per child in order [assemNum,[block,...]] in the same format
+  scalevals up|down [v,...]   with v = N | L[q,..] | S[q] | A[q,..]   -> the scaled values, same format
 -/
 
 def parseAssem? (s : String) : Option Assem := do
@@ -33,41 +37,104 @@ def showState (s : State) : String :=
     ++ " edgeAdded=" ++ showInts s.edgeAdded ++ " kids=" ++ showList showAssem s.kids
     ++ " names=" ++ showInts ((s.kids.map (·.id)).mergeSort (fun a b => decide (a ≤ b)))
 
-def empty : State := ⟨[], false, 0, true, [], false, []⟩
+def empty : State × Sub := (⟨[], false, 0, true, [], false, []⟩, [])
 
-def stepLine (s : State) : List String → State × String
+def parsePair? (s : String) : Option (Int × Int) := do
+  match (← splitTop s) with
+  | [i, j] => some ((← parseInt? i), (← parseInt? j))
+  | _ => none
+
+def mkObj? (n k : Int) : Option Obj := if n = -1 then none else some (n, k.toNat)
+
+def parsePBlock? (s : String) : Option PBlock := do
+  match (← splitTop s) with
+  | [sn, sk, gn, gk, on, ok, oo, pins] =>
+    let sn ← parseInt? sn; let sk ← parseInt? sk; let gn ← parseInt? gn; let gk ← parseInt? gk
+    let on ← parseInt? on; let ok ← parseInt? ok; let oo ← parseInt? oo
+    let pins ← parseList? parsePair? pins
+    some { self := (sn, sk.toNat), grid := mkObj? gn gk, owner := mkObj? on ok, onOwn := oo != 0, pins := pins }
+  | _ => none
+
+def parseEntry? (s : String) : Option (Int × List PBlock) := do
+  match (← splitTop s) with
+  | [n, bs] => some ((← parseInt? n), (← parseList? parsePBlock? bs))
+  | _ => none
+
+def parsePVal? (s : String) : Option PVal :=
+  if s == "N" then some .none
+  else match s.front with
+    | 'L' => (parseRatList? (String.ofList (s.toList.drop 1))).map .list
+    | 'A' => (parseRatList? (String.ofList (s.toList.drop 1))).map .array
+    | 'S' => match parseRatList? (String.ofList (s.toList.drop 1)) with
+      | some [q] => some (.scalar q)
+      | _ => none
+    | _ => none
+
+def showPVal : PVal → String
+  | .none => "N"
+  | .list l => "L" ++ showList showRat l
+  | .array l => "A" ++ showList showRat l
+  | .scalar q => "S" ++ showList showRat [q]
+
+def showObj : Option Obj → String
+  | some o => toString o.1 ++ "," ++ toString o.2
+  | none => "-1,0"
+
+def showPBlock (b : PBlock) : String :=
+  "[" ++ showObj (some b.self) ++ "," ++ showObj b.grid ++ "," ++ showObj b.owner ++ "," ++ (if b.onOwn then "1" else "0")
+    ++ "," ++ showList (fun p => "[" ++ toString p.1 ++ "," ++ toString p.2 ++ "]") b.pins ++ "]"
+
+def showSub (s : State) (sub : Sub) : String :=
+  showList (fun a => "[" ++ toString a.id ++ "," ++ showList showPBlock (subOf sub a.id) ++ "]") s.kids
+
+def stepLine (p : State × Sub) : List String → (State × Sub) × String :=
+  let s := p.1
+  let sub := p.2
+  fun
   | ["init", full, next, flag, kids] =>
     match parseBool? full, parseInt? next, parseBool? flag, parseList? parseAssem? kids with
     | some f, some n, some fl, some ks =>
       let s' : State := ⟨ks, f, n, fl, [], false, []⟩
-      (s', showState s')
-    | _, _, _, _ => (s, "bad-op")
+      ((s', []), showState s')
+    | _, _, _, _ => (p, "bad-op")
+  | ["pinit", tab] =>
+    match parseList? parseEntry? tab with
+    | some t => ((s, t), "ok")
+    | none => (p, "bad-op")
+  | ["sub"] => (p, showSub s sub)
+  | ["scalevals", dir, vals] =>
+    match parseList? parsePVal? vals with
+    | some vs =>
+      if dir == "up" then (p, showList showPVal (scaleBlockVals true vs))
+      else if dir == "down" then (p, showList showPVal (scaleBlockVals false vs))
+      else (p, "bad-op")
+    | none => (p, "bad-op")
   | ["convert"] =>
-    if convertCollides s then (s, "reject") else let s' := convert s; (s', showState s')
-  | ["restore"] => let s' := restore s; (s', showState s')
-  | ["addEdge"] => let s' := addEdge s; (s', showState s')
-  | ["removeEdge"] => let s' := removeEdge s; (s', showState s')
+    if convertCollides s then (p, "reject") else let p' := pstep p .convert; (p', showState p'.1)
+  | ["restore"] => let p' := pstep p .restore; (p', showState p'.1)
+  | ["addEdge"] => let p' := pstep p .addEdge; (p', showState p'.1)
+  | ["removeEdge"] => let p' := pstep p .removeEdge; (p', showState p'.1)
   -- a second changer on a core the first one expanded: its convert returns at once (already full), its restore has
   -- nothing to undo (`_newAssembliesAdded` empty): both leave the state as it is
-  | ["convert2"] => if s.full then (s, showState s) else (s, "bad-op")
-  | ["restore2"] => if s.full then (s, showState s) else (s, "bad-op")
+  | ["convert2"] => if s.full then (p, showState s) else (p, "bad-op")
+  | ["restore2"] => if s.full then (p, showState s) else (p, "bad-op")
   | ["solveScale"] =>
-    if s.full then (s, "bad-op") else let s' := scaleSym (solveHalves s); (s', showState s')
+    if s.full then (p, "bad-op") else let s' := scaleSym (solveHalves s); ((s', sub), showState s')
   | ["geo", k] => match parseNat? k with
-    | some k => (s, showList showRat ((List.range k).map (geoTotal s)))
-    | none => (s, "bad-op")
+    | some k => (p, showList showRat ((List.range k).map (geoTotal s)))
+    | none => (p, "bad-op")
   | ["par", k] => match parseNat? k with
-    | some k => (s, showList showRat ((List.range k).map (parTotal s.kids)))
-    | none => (s, "bad-op")
+    | some k => (p, showList showRat ((List.range k).map (parTotal s.kids)))
+    | none => (p, "bad-op")
   | ["domain", i, j] => match parseInt? i, parseInt? j with
-    | some i, some j => (s, showBool (inDomain (i, j)))
-    | _, _ => (s, "bad-op")
+    | some i, some j => (p, showBool (inDomain (i, j)))
+    | _, _ => (p, "bad-op")
   | ["sector", i, j] => match parseInt? i, parseInt? j with
-    | some i, some j => (s, showBool (sector (i, j)))
-    | _, _ => (s, "bad-op")
+    | some i, some j => (p, showBool (sector (i, j)))
+    | _, _ => (p, "bad-op")
   | ["lines", i, j] => match parseInt? i, parseInt? j with
-    | some i, some j => (s, showBool (on0 (i, j)) ++ showBool (on120 (i, j)))
-    | _, _ => (s, "bad-op")
-  | _ => (s, "bad-op")
+    | some i, some j => (p, showBool (on0 (i, j)) ++ showBool (on120 (i, j)))
+    | _, _ => (p, "bad-op")
+  | _ => (p, "bad-op")
 
 def main : IO Unit := loopState empty stepLine
